@@ -225,6 +225,7 @@ func famC03(g *Gen, o *Out, n int, thorough bool) {
 		if g.pick(2) == 0 {
 			io_.sid = true
 		}
+		embSid := true // writeAll stores and indexes identity CIDs
 		if c < 4 {
 			// fixed corpus: the edge block list as CARv1 and as padded CARv2, identity CIDs indexed or not
 			bs = g.EdgeBlocks()
@@ -234,7 +235,7 @@ func famC03(g *Gen, o *Out, n int, thorough bool) {
 			if c < 2 {
 				ver, dp, arch = 1, 0, writeAll(r, bs, true)
 			} else {
-				ver, dp = 2, 13
+				ver, dp, embSid = 2, 13, true
 				arch = writeAll(r, bs, false, carv2.UseDataPadding(dp), carv2.StoreIdentityCIDs(true))
 			}
 		}
@@ -275,6 +276,30 @@ func famC03(g *Gen, o *Out, n int, thorough bool) {
 				o.Line(fmt.Sprintf("idx kind=%s codec=%s %s", kind, codec, desc), res)
 				o.Count("idx/" + rk + "/" + codec + "/v" + fmt.Sprint(ver))
 			}
+		}
+		// ReadOrGenerateIndex: generated for a CARv1 and an index-less CARv2 (under the caller's options),
+		// read back verbatim for a CARv2 that carries one (whatever the caller asks for)
+		for _, codec := range []string{"sorted", "mh"} {
+			ropts := io_.opts()
+			if codec == "sorted" {
+				ropts = append(ropts, carv2.UseIndexCodec(multicodec.CarIndexSorted))
+			}
+			idx, err := carv2.ReadOrGenerateIndex(bytes.NewReader(src), ropts...)
+			res := "open=" + classifyIdx(err)
+			if err == nil {
+				res += " get=" + queryIndex(idx, qs) + " each=" + eachIndex(idx)
+			}
+			ld, lc := desc, codec
+			if ver == 2 {
+				// the CARv2 carries its writer's index: multihash-sorted, identity CIDs as the writer chose
+				emb := io_
+				emb.sid, emb.mcs = embSid, 1<<20 // as the writer had them (writeAll)
+				lc = "mh"
+				ld = fmt.Sprintf("%s roots=%s blocks=%s ver=%d dp=%d pad=%d arch=%s q=%s", emb, roots, blocksStr(bs), ver, dp,
+					len(src)-len(arch), hex.EncodeToString(src), cidsStr(qs))
+			}
+			o.Line(fmt.Sprintf("idx kind=rog req=%s codec=%s %s", codec, lc, ld), res)
+			o.Count("idx/rog/" + codec + "/v" + fmt.Sprint(ver))
 		}
 	}
 }
